@@ -3,16 +3,19 @@ from common import COMMON_TB
 PROP = dict(
         module="IocProofs.C19",
         level_text="Totality (no panic, every slice in range) is proved for EVERY byte string and faithfulness for every well-formed "
-                   "structured tag, as Lean theorems about a model of strings2.Index/Split and TagArg.Parse/Set/Has that mirrors the Go "
-                   "loops; the model is tied to the real NewProperty by a differential run on tens of thousands of generated tags per run.",
+                   "structured tag, as Lean theorems about a model of strings2.Index/Split, TagArg.Parse/Set/Has and the tag scanner's Required default that mirrors the Go "
+                   "loops (a scanner, whatever its Required field, leaves required-ness as the tag text states it: C19_scan_only_explicit_false); the model is tied to the real NewProperty and the real scanner by a differential run on tens of thousands of generated tags per run.",
         level_note="Modelled, not verified: strings.Index/Count/ToUpper, Go slicing, reflect.StructTag.Lookup.",
         subs=[dict(sub="tag", n_quick=60000, n_thorough=1500000)],
         thorough_seeds=3,
-        rule="tag strings: 40% generated from the grammar (value x 0-5 arguments x bracketed groups), 40% arbitrary bytes "
-             "(len 0-64, biased to , = brackets space quotes), 20% through the prop shorthand; a case is non-trivial when it "
+        rule="tag strings: 36% generated from the grammar (value x 0-5 arguments x bracketed groups), 36% arbitrary bytes "
+             "(len 0-64, biased to , = brackets space quotes), 18% through the prop shorthand (each also pushed through the real "
+             "value scanner and two user-defined scanners), 9% through a user-defined tag scanner (Required field unset / true / "
+             "false x tag lookup / ExtractHandler; half of these tags built around the forms of required-ness: none, bare, =true, "
+             "=false, next to other arguments); a case is non-trivial when it "
              "contains an argument, a bracket, or a separator; distinct = distinct scenario lines",
         trusted_base=COMMON_TB + ["strings.Index/Count/ToUpper and Go slice semantics as modelled in Ioc.Tag (validated by the correspondence)",
-                                  "reflect.StructTag.Lookup for the prop shorthand path"],
+                                  "reflect.StructTag.Lookup for the prop shorthand path and the scanner paths"],
         assumptions=["faithfulness (round-trip) is claimed for bracket-balanced, well-formed tags only, as the property's quantifier says; totality for all byte strings",
                      "separators are the single bytes ',', '=', ' ' (constants of arg.go)"],
     )
